@@ -38,4 +38,13 @@ def main(argv):
 
 
 if __name__ == "__main__":
-    sys.exit(main(sys.argv[1:]))
+    try:
+        rc = main(sys.argv[1:])
+    except SystemExit:
+        raise
+    except BaseException as e:      # a crash of the checker (or of importing a broken /repo) is never a violation
+        import traceback
+        traceback.print_exc()
+        print("CHECKER-ERROR %s: %s" % (type(e).__name__, e))
+        rc = 3
+    sys.exit(rc)
